@@ -132,7 +132,8 @@ SPEC = {
     'harnesses': [
         {'name': 'contained', 'fn': 'contained', 'params': _P, 'call': _C,
          'bounds': {'quick': _B + _ONE + ' and (v == 1 or exc == 0) and (not color or (v == 1 and (exc == 0 or exc == 4)))', 'thorough': _B + _TWO + ' and (v == 1 or exc == 0)'},
-         'slices': {'quick': ['topo == %d and %s and v == %d and %s' % (t, b, v, c) for t in (0, 1) for b in ('buf', 'not buf') for v in range(4) for c in ('color', 'not color') if c == 'not color' or v == 1],
+         'slices': {'quick': ['topo == %d and %s and v == %d and %s and %s' % (t, b, v, c, e) for t in (0, 1) for b in ('buf', 'not buf') for v in range(4) for c in ('color', 'not color')
+                              for e in (('exc <= 1', '(exc == 2 or exc == 3)', 'exc >= 4') if v == 1 and c == 'not color' else ('True',)) if c == 'not color' or v == 1],
                     'thorough': ['topo == %d and %s and v == %d and ka0 == %d' % (t, b, v, k) for t in (0, 1) for b in ('buf', 'not buf') for v in range(4) for k in range(NK)]},
          'reach': 'contained_reach', 'reach_bounds': {'quick': _B + _ONE + ' and v == 1 and exc == 0 and topo == 1',
                                                       'thorough': _B + _ONE + ' and v == 1 and exc == 0 and topo == 1'},
